@@ -156,6 +156,19 @@ func NewMsgCreateValidator(args []interface{}, denom string) (*stakingtypes.MsgC
 	return msg, delegatorAddress, nil
 }
 
+// canonicalValidatorAddress returns the canonical spelling of a validator operator address.
+// Bech32 also admits an all upper-case spelling of the same address, while the validator allow
+// and deny lists of a stake authorization are compared as strings: handing the caller's spelling
+// on would let a grantee reach a denied validator by writing its address in upper case.
+// An address that does not parse is returned as it is, for the message validation to refuse.
+func canonicalValidatorAddress(address string) string {
+	valAddr, err := sdk.ValAddressFromBech32(address)
+	if err != nil {
+		return address
+	}
+	return valAddr.String()
+}
+
 // NewMsgDelegate creates a new MsgDelegate instance and does sanity checks
 // on the given arguments before populating the message.
 func NewMsgDelegate(args []interface{}, denom string) (*stakingtypes.MsgDelegate, common.Address, error) {
@@ -233,8 +246,8 @@ func NewMsgRedelegate(args []interface{}, denom string) (*stakingtypes.MsgBeginR
 
 	msg := &stakingtypes.MsgBeginRedelegate{
 		DelegatorAddress:    sdk.AccAddress(delegatorAddr.Bytes()).String(), // bech32 formatted
-		ValidatorSrcAddress: validatorSrcAddress,
-		ValidatorDstAddress: validatorDstAddress,
+		ValidatorSrcAddress: canonicalValidatorAddress(validatorSrcAddress),
+		ValidatorDstAddress: canonicalValidatorAddress(validatorDstAddress),
 		Amount: sdk.Coin{
 			Denom:  denom,
 			Amount: math.NewIntFromBigInt(amount),
@@ -277,7 +290,7 @@ func NewMsgCancelUnbondingDelegation(args []interface{}, denom string) (*staking
 
 	msg := &stakingtypes.MsgCancelUnbondingDelegation{
 		DelegatorAddress: sdk.AccAddress(delegatorAddr.Bytes()).String(), // bech32 formatted
-		ValidatorAddress: validatorAddress,
+		ValidatorAddress: canonicalValidatorAddress(validatorAddress),
 		Amount: sdk.Coin{
 			Denom:  denom,
 			Amount: math.NewIntFromBigInt(amount),
@@ -786,7 +799,7 @@ func checkDelegationUndelegationArgs(args []interface{}) (common.Address, string
 		return common.Address{}, "", nil, fmt.Errorf(cmn.ErrInvalidAmount, args[2])
 	}
 
-	return delegatorAddr, validatorAddress, amount, nil
+	return delegatorAddr, canonicalValidatorAddress(validatorAddress), amount, nil
 }
 
 // FormatConsensusPubkey format ConsensusPubkey into a base64 string
